@@ -341,7 +341,7 @@ def run_c16(rep, tier):
     specs = gen_specs(tier, common.seed())
     rep.evaluations = len(specs)
     with mp.get_context('fork').Pool(common.NCPU) as pool:
-        obs = pool.map(helper_obs, specs, chunksize=max(1, len(specs) // 128))
+        obs = pool.map(common.limited, [(helper_obs, v_) for v_ in specs], chunksize=max(1, len(specs) // 128))
     ok = [o for o in obs if o['outcome']['status'] == 'ok']
     verdicts, st = common.validate_observations(rep.pid, 'Trace_Helpers', ok, tag='helpers')
     rep.add_trace_stats(st, len(ok))
